@@ -553,4 +553,9 @@ def run(chk):
     if not getattr(chk, "_overlay", None):
         from . import c04
         c04.setup_before_begin_rule(chk, P, "C18.R7:setup-before-begin")
+    # an unsampled root is recorded by TraceparentCtxt::open_disabled: every wrapper / bridge a runtime may put around the context
+    # (references, Box, Arc, Option, the erased bridges of the ambient runtime) must hand open_disabled on, not fall back to the
+    # provided default (open_push of nothing), or children of an unsampled root are sampled afresh
+    common.wrapper_family_rule(chk, P, "C18", CTXT, 6, forward=False, allow={
+        ("emit_core::runtime::AssertInternal<", "open_disabled"): "the internal runtime's context is never the traceparent context"})
     return chk
